@@ -104,25 +104,19 @@ Definition is_dir_qid (i : info) : bool := negb (N.land (i_qtype i) QTDIR =? 0)%
 Definition incref (s : store) (x : nat) : store :=
   let n := getn s x in setn s x (with_ref n (n_ref n + 1)).
 
-(* decref: None = out of fuel *)
+(* decref: None = out of fuel.  When the count reaches 0 the children are
+   detached under the lock and released afterwards. *)
 Fixpoint decref (fuel : nat) (s : store) (x : nat) : option store :=
   match fuel with
   | O => None
   | S fuel =>
       let n := getn s x in
       let r := n_ref n - 1 in
-      let s1 := setn s x (with_ref n r) in
       if r =? 0 then
-        match n_children n with
-        | None => Some s1
-        | Some cs =>
-            match fold_left (fun acc c => match acc with Some s' => decref fuel s' (snd c) | None => None end)
-                            cs (Some s1) with
-            | Some s2 => Some (setn s2 x (with_children (getn s2 x) None))
-            | None => None
-            end
-        end
-      else Some s1
+        let s1 := setn s x (with_children (with_ref n r) None) in
+        fold_left (fun acc c => match acc with Some s' => decref fuel s' c | None => None end)
+                  (child_ids n) (Some s1)
+      else Some (setn s x (with_ref n r))
   end.
 
 Definition decref_top (s : store) (x : nat) : option store := decref (S (length s)) s x.
@@ -170,6 +164,7 @@ Definition e_badoffset : bstr := str "badoffset"%string.
 Definition e_notimpl : bstr := str "notimpl"%string.
 Definition e_toolarge : bstr := str "toolarge"%string.
 Definition e_notdir : bstr := str "notdir"%string.
+Definition e_wstatdir : bstr := str "wstatdir"%string.
 
 (* FileEnt.Read on a buffer of [count] bytes; returns p[:m] *)
 Definition ent_read (data : list N) (count : Z) (offset : Z) : res (list N) :=
@@ -215,6 +210,7 @@ Definition node_write (n : node) (p : list N) (offset : Z) : res node :=
    before the failing test stay set) *)
 Definition node_wstat (n : node) (mode : N) (uid gid name : bstr) (len : N) : res (node * option bstr) :=
   let i := n_info n in
+  if negb (mode =? MAXU32)%N && negb (N.land (N.lxor mode (i_mode i)) DMDIR =? 0)%N then Err e_wstatdir else
   let i := if (mode =? MAXU32)%N then i else
            mkInfo (i_name i) (i_uid i) (i_gid i) (i_muid i) mode (i_qtype i) (i_qpath i) (i_qvers i) (i_len i) in
   let i := if is_empty uid then i else
@@ -409,6 +405,7 @@ Definition e_illegal : bstr := str "illegal"%string.
 Definition e_c_unknownfid : bstr := str "c_unknownfid"%string.
 Definition e_createnondir : bstr := str "createnondir"%string.
 Definition e_c_invalidpath : bstr := str "c_invalidpath"%string.
+Definition e_c_notdir : bstr := str "c_notdir"%string.
 Definition e_alreadyopen : bstr := str "alreadyopen"%string.
 Definition e_nofile : bstr := str "nofile"%string.
 Definition e_noread : bstr := str "noread"%string.
@@ -490,7 +487,7 @@ Definition sess_walk (w : world) (s : nat) (fid newfid : N) (names : list bstr) 
               if negb (length qids =? length names)%nat then (w, Ok (RQids qids)) else
               if (newfid =? fid)%N then
                 match fh_clunk s1 (f_h ref) with
-                | Some s2 => (set_sess (set_store w s2) s (ft_set t fid (mkFid h2 (f_file ref) (f_mode ref))), Ok (RQids qids))
+                | Some s2 => (set_sess (set_store w s2) s (ft_set t fid (mkFid h2 None 0)), Ok (RQids qids))
                 | None => (w, Err e_fuel)
                 end
               else (set_sess (set_store w s1) s (t ++ [(newfid, mkFid h2 None 0)]), Ok (RQids qids))
@@ -532,7 +529,11 @@ Definition sess_create (w : world) (s : nat) (fid : N) (name : bstr) (perm mode 
           let w1 := mkW f1 (w_sess w) in
           match open_handle w1 h2 with
           | Ok f => (set_sess w1 s (ft_set t fid (mkFid h2 (Some f) mode)), Ok (RQid (qid_of (ent_info w1 h2))))
-          | _ => (w1, Hang)    (* session.Create's delRef(parent) under the parent's lock (D9) *)
+          | _ =>               (* OpenDir of the new directory failed: the fid is unbound, the new entry released *)
+              match fh_clunk (wst w1) h2 with
+              | Some s2 => (set_sess (set_store w1 s2) s (ft_del t fid), Err e_c_notdir)
+              | None => (w1, Err e_fuel)
+              end
           end
       end
   end.
